@@ -167,6 +167,30 @@ def run(ctx):
         g = ap.gate_edges(lambda atom, pol: model.strip_targs(ap.ref_of(atom) or '').endswith('pair::first') and mv in ap.subtree_refs(atom) and pol is True)
         ctx.check(begin and end and len(mc) == 1 and len(rets) == 1 and ap.only_through(rets[0], g), R2, 'applications_pool:first-matching-mount-wins', 'pool lookup does not return at the first matching mount point', ap.where)
 
+    # every scan over mount points is first-hit: once a mount point matched, a later one never replaces the selection
+    outp = q.param_by_index(ap, 3)
+    scans = [L for L in q.loops(ap) if [i for i in ap.calls(ap.N(L)['body']) if ap.bcallee(i) == 'cppcms::mount_point::match']]
+    ctx.check(len(scans) >= 2, R2, 'applications_pool:scans', 'expected the scan over pools and the scan over asynchronous application objects', ap.where)
+    for k, L in enumerate(scans):
+        body = ap.N(L)['body']
+        sel = [w for w in q.writes_to(ap, outp, body)]
+        leave = [r for r in ap.returns() if ap.contains(body, r)] + [j for j in ap.walk(body) if ap.N(j)['k'] == 'BreakStmt' and q.enclosing_loops(ap, j)[0] == L]
+        retv = set()
+        for r in ap.returns():
+            v = ap.ret_value(r)
+            if v is not None and not ap.contains(L, r):
+                retv |= set(x for x in ap.subtree_refs(v) if x.startswith('v:'))
+
+        def none_yet(atom, pol):
+            refs = set(x for x in ap.subtree_refs(atom) if x.startswith(('v:', 'f:', 'p:')))
+            return pol is False and bool(refs) and refs <= retv and ap.N(atom)['k'] in ('CXXMemberCallExpr', 'DeclRefExpr', 'ImplicitCastExpr', 'CXXOperatorCallExpr')
+        g_none = ap.gate_edges(none_yet)
+        for n_, w in enumerate(sel):
+            marks = [x for rv in retv for x in q.writes_to(ap, rv, body)]
+            ok = (bool(leave) and q.always_after(ap, w, leave)) or (bool(g_none) and ap.only_through(w, g_none) and bool(marks) and q.always_after(ap, w, marks))
+            ctx.check(ok, R2, 'applications_pool:scan#%d:selection#%d:first-hit-final' % (k, n_), 'a later matching mount point can replace the one selected first (sub-path and pool of the last match win)', ap.loc(w))
+        ctx.check(bool(sel), R2, 'applications_pool:scan#%d:reports-sub-path' % k, 'the matched sub-path is not handed back', ap.loc(L))
+
     # ---------------- R3
     om = [f for f in P.fns.values() if f.short == 'matches' and 'option' in (f.record or '')]
     ctx.require(om, 'C20.R3: option::matches not found')
